@@ -12,6 +12,7 @@
     specification removes the entry with it, so that a later `add` of the same hash is a NEW entry whose bytes are claimed
     (the scenario of the repair 6075761f). Whether the block is still queued is read from the store's index record
     (`forgets`: `ipos = none`), the write buffer being part of the store, not of the durable map;
+    a BlockInvalid that PANICS (the block is trusted: `panics`) leaves the store unchanged and the entry untouched;
   * a claim is made for `get` (bytes + latest trusted flag) and for `length` (the size of the stored block).
 -/
 import GocoinV.Model.BlockDB
@@ -45,7 +46,13 @@ def forgets (s : State) (k : Key) : Bool :=
   | some r => !r.trusted && r.ipos.isNone
   | none => false
 
-/-- one operation on the durable map; `s` is the store's state BEFORE the operation (read only by `forgets`) -/
+/-- BlockInvalid panics ("Trusted block cannot be invalid") and changes nothing: the key is in the index and trusted -/
+def panics (s : State) (k : Key) : Bool :=
+  match AL.get s.index k with
+  | some r => r.trusted
+  | none => false
+
+/-- one operation on the durable map; `s` is the store's state BEFORE the operation (read only by `forgets` and `panics`) -/
 def specStep (s : State) (sp : Spec) (op : Op) : Spec :=
   match op with
   | .reopen _ => if sp.isOpen then sp else { sp with isOpen := true }
@@ -65,7 +72,8 @@ def specStep (s : State) (sp : Spec) (op : Op) : Spec :=
       match AL.get sp.m (keyOf hash) with
       | none => sp
       | some e =>
-        if forgets s (keyOf hash) then { sp with m := AL.del sp.m (keyOf hash) }
+        if panics s (keyOf hash) then sp     -- the call panicked, the store is unchanged: the entry keeps its claim
+        else if forgets s (keyOf hash) then { sp with m := AL.del sp.m (keyOf hash) }
         else { sp with m := AL.set sp.m (keyOf hash) { e with tainted := true } }
     | .close => { sp with isOpen := false }
     | _ => sp
